@@ -3,6 +3,8 @@ and one live trace; update / regenerate / MCMC kernels / lane indexing / resampl
 trips are transitions; PPL-ref's reference trace ("a dict and the args") is advanced alongside and
 every transition is checked against it."""
 
+from . import world  # first: puts $VERIF_REPO/src in front and loads the JAX adapter before genjax
+
 import copy
 import numpy as np
 import jax
